@@ -55,4 +55,18 @@ theorem synthetic_request_has_no_tls :
     lookupRequestFields.contains "TLS" = false ∧ lookupRequestTLSStores = 0 ∧
     lookupRequestFields.contains "Host" = true ∧ lookupRequestFields.contains "URL" = true := by decide
 
+/-- **What the interceptor decides for a call travels in that call's own context.** On the call path —
+`Stream`, `lookup`, `getDestinationHostFromMetadata`, the closure `GetGRPCDirector` returns, and every
+unexported helper of the package they call — no package-level variable is read, called or written, nothing is
+stored through the interceptor's receiver, and nothing is stored into a variable the director's closure
+captures: target and metadata reach the director only through `context.WithValue` / the stream's context, which
+belong to one call. The models (`World.call`, `Serve.LWorld.call`, `Relay.init`) and `grpc_call_end_to_end` treat
+a call as a function of *its own* method, metadata and the table; the per-call relay theorems are about one
+call's four streams.
+Excludes: parking the chosen target (or the copied metadata) in a package variable or a field between
+interceptor and director — two calls in flight at the same time then exchange their backends, but only when a
+second call's store falls between the first call's store and its director's read (microseconds): the
+concurrent calls of `c16.call`'s "par" steps hit that window by luck at best (hand edit Mp: 246 cases, quiet). -/
+theorem call_path_keeps_no_shared_state : callPathSharedState = [] := by decide
+
 end Fabio.Props.C16Facts
